@@ -44,6 +44,7 @@ pub struct Ctx {
     exec: Exec,
     current: Arc<Mutex<Option<(Instant, String)>>>,
     pub case_timeout: Duration,
+    timeout_ms: Arc<AtomicU64>,
 }
 
 static CASE_NO: AtomicU64 = AtomicU64::new(0);
@@ -67,16 +68,17 @@ impl Ctx {
             exec,
             current: current.clone(),
             case_timeout: Duration::from_secs(20),
+            timeout_ms: Arc::new(AtomicU64::new(20_000)),
         };
         // watchdog: a case that does not return is recorded as a hang; the process then stops
         // (exit code 3) — the orchestrator treats the hang as the verdict of that case.
         let dir = dir.to_string();
-        let timeout = ctx.case_timeout;
+        let timeout_ms = ctx.timeout_ms.clone();
         std::thread::spawn(move || loop {
             std::thread::sleep(Duration::from_millis(200));
             let cur = current.lock().unwrap().clone();
             if let Some((start, line)) = cur {
-                if start.elapsed() > timeout {
+                if start.elapsed() > Duration::from_millis(timeout_ms.load(Ordering::SeqCst)) {
                     let mut f = File::create(format!("{dir}/hang.txt")).unwrap();
                     writeln!(f, "{}", line).ok();
                     writeln!(f, "{}", CASE_NO.load(Ordering::SeqCst)).ok();
@@ -109,6 +111,7 @@ impl Ctx {
             line.push_str(&a.to_string());
         }
         CASE_NO.store(self.n, Ordering::SeqCst);
+        self.timeout_ms.store(self.case_timeout.as_millis() as u64, Ordering::SeqCst);
         // flush before running so that a hang / abort leaves consistent files
         self.cases.flush().ok();
         self.imp.flush().ok();
